@@ -1,5 +1,6 @@
 import EmmyVerif.Lemmas.IndexModule
 import EmmyVerif.Lemmas.IndexPattern
+import EmmyVerif.Lemmas.IndexRule
 /-!
 # C33 — require paths resolve to the files the configured patterns select
 
@@ -99,6 +100,58 @@ theorem C33_init_wins (x : List Char) (hx : x.all (fun c => c ≠ '\n') = true) 
   have : matchPattern [[], "/init.lua".toList] (x ++ "/init.lua".toList) = some x :=
     (matchPattern_single [] _ _ x).mpr ⟨by simp, hx⟩
   rw [this]
+
+/-- **C33 moduleMap rule fragment.** A rule `^pre(.*)suf$ → rpre${1}rsuf` rewrites exactly the strings
+`pre ++ m ++ suf` (no line break in `m`) to `rpre ++ m ++ rsuf` and leaves every other string unchanged. -/
+theorem C33_rule_rewrites (r : Rule) (s : List Char) :
+    (∀ mid, mid.all (fun c => c ≠ '\n') = true → applyRule r (r.pre ++ mid ++ r.suf) = r.rpre ++ mid ++ r.rsuf) ∧
+    (applyRule r s ≠ s → ∃ mid, s = r.pre ++ mid ++ r.suf ∧ mid.all (fun c => c ≠ '\n') = true ∧
+      applyRule r s = r.rpre ++ mid ++ r.rsuf) :=
+  ⟨fun mid hm => applyRule_match r mid hm, applyRule_sound r s⟩
+
+/-- **C33 moduleMap rewrite is tried before fuzzy.** With one rule, a require string `pre ++ m ++ suf` that matches
+no live module exactly resolves to a live module whose path is the rewritten string `rpre ++ m ++ rsuf`, whether or
+not fuzzy lookup is enabled. -/
+theorem C33_mapped_exact (cfg : Config) (ops : List Op) (q : List Char) (r : Rule) (mid : List Char)
+    (hr : cfg.rules = [r]) (hq : normSep q = r.pre ++ mid ++ r.suf) (hm : mid.all (fun c => c ≠ '\n') = true)
+    (hne : r.rpre ++ mid ++ r.rsuf ≠ normSep q)
+    (hno : ∀ e ∈ specLive cfg ops, e.path ≠ splitOn '.' (normSep q))
+    (hlive : ∃ e ∈ specLive cfg ops, e.path = splitOn '.' (r.rpre ++ mid ++ r.rsuf)) :
+    ∃ i, find cfg (run cfg ops) q = some i ∧ i ∈ specLive cfg ops ∧ i.path = splitOn '.' (r.rpre ++ mid ++ r.rsuf) := by
+  rw [C33_find_refines_spec]
+  have hrw : replacePath cfg.rules (normSep q) = r.rpre ++ mid ++ r.rsuf := by
+    rw [hr, hq]; simp only [replacePath, List.foldl_cons, List.foldl_nil]; exact applyRule_match r mid hm
+  have hmq : mappedQuery cfg.rules (normSep q) = some (splitOn '.' (r.rpre ++ mid ++ r.rsuf)) := by
+    unfold mappedQuery
+    rw [hrw]
+    have : cfg.rules.isEmpty = false := by rw [hr]; rfl
+    rw [this]
+    simp only [Bool.false_eq_true, if_false]
+    rw [if_neg hne]
+  have hex : specExact (specLive cfg ops) (splitOn '.' (normSep q)) = none := specExact_none_iff.mpr hno
+  cases hme : specExact (specLive cfg ops) (splitOn '.' (r.rpre ++ mid ++ r.rsuf)) with
+  | none =>
+    obtain ⟨e, he, hp⟩ := hlive
+    exact absurd hp (specExact_none_iff.mp hme e he)
+  | some i =>
+    obtain ⟨h1, h2⟩ := specExact_some hme
+    refine ⟨i, ?_, h1, h2⟩
+    unfold specFind findWith
+    simp only [hex, hmq, Option.bind_some, hme]
+
+/-- **C33 several workspace roots.** When no workspace root is the file itself, the module path chosen by
+`extract_module_path` is offered by one of the workspaces that contain the file and match a pattern, and it is a
+shortest one (in bytes) among everything any workspace offers — independent of how many other roots also match. -/
+theorem C33_extract_minimal (pats : List Pattern) (wss : List Workspace) (path mp : List Char) (id : Nat)
+    (hroot : ∀ w ∈ wss, stripPrefix w.root (splitOn '/' path) ≠ some [])
+    (h : extractModulePath pats wss path = some (mp, id)) :
+    (∃ w ∈ wss, Offers pats (splitOn '/' path) w mp) ∧
+    ∀ w ∈ wss, ∀ mp', Offers pats (splitOn '/' path) w mp' → utf8Len mp ≤ utf8Len mp' := by
+  obtain ⟨_, h2, h3⟩ := extractGo_minimal pats (splitOn '/' path) wss hroot none mp id h
+  refine ⟨?_, h2⟩
+  rcases h3 with ⟨i, hi⟩ | h3
+  · cases hi
+  · exact h3
 
 /-! Non-vacuity and behaviour on concrete instances (tests, labelled as such). -/
 
